@@ -220,12 +220,35 @@ type cworld struct {
 	live   []u.Hash        // live leaves, insertion order
 	rem    map[u.Hash]bool // leaves cached by the map forests
 	last   *cblock
+	// many > 0: the first block of grow adds this many leaves (a forest of many trees: 9 or
+	// more roots, rows >= 9) and the scenarios draw their leaves from the right edge half of
+	// the time
+	many int
 }
+
+// concManyEvery > 0 (set by famConc only): every concManyEvery-th world of the interleaving
+// scenarios is a many-tree world.
+var concManyEvery, concWorldNo int
 
 func newCWorld(g *Gen, cfg cconfig) *cworld {
 	w := &cworld{g: g, cfg: cfg, prover: u.NewAccumulator(), rem: map[u.Hash]bool{}}
 	w.a, w.b = newMap(cfg.full, cfg.rows), newMap(cfg.full, cfg.rows)
+	if concManyEvery > 0 {
+		concWorldNo++
+		if concWorldNo%concManyEvery == 0 {
+			w.many = manyTreeCount(concWorldNo / concManyEvery)
+		}
+	}
 	return w
+}
+
+// edge narrows a list of cached live leaves to the last 24 (the small trees at the right edge)
+// half of the time in a many-tree world.
+func (w *cworld) edge(c []u.Hash) []u.Hash {
+	if w.many > 0 && len(c) > 24 && w.g.Intn(2) == 0 {
+		return c[len(c)-24:]
+	}
+	return c
 }
 
 // cachedLive returns the live leaves the map forests have cached.
@@ -313,6 +336,11 @@ func (w *cworld) grow(nBlocks, maxAdds int) {
 		nAdds := 1 + w.g.Intn(maxAdds)
 		if i == 0 {
 			nAdds += 3
+			if w.many > 0 && len(w.live) == 0 {
+				nAdds = w.many
+			}
+		} else if w.many > 0 && w.g.Intn(3) != 0 {
+			nAdds = 0 // keep the many one-bits of the leaf count
 		}
 		b := w.mkBlock(dels, nAdds, false)
 		for _, m := range []*u.MapPollard{w.a, w.b} {
@@ -557,7 +585,7 @@ func concRound(g *Gen, cfg cconfig, maxAdds int) {
 	{
 		w := newCWorld(g, cfg)
 		w.grow(2+g.Intn(3), maxAdds)
-		c := w.cachedLive()
+		c := w.edge(w.cachedLive())
 		dels := pick(g, c, 1+g.Intn(2))
 		nAdds := 2 + g.Intn(maxAdds)
 		if cfg.rows == 0 { // cross the next power of two: remap inside the add loop
@@ -582,7 +610,7 @@ func concRound(g *Gen, cfg cconfig, maxAdds int) {
 	{
 		w := newCWorld(g, cfg)
 		w.grow(2+g.Intn(3), maxAdds)
-		c := w.cachedLive()
+		c := w.edge(w.cachedLive())
 		dels := pick(g, c, 1+g.Intn(3))
 		nAdds := 1 + g.Intn(maxAdds)
 		blk := w.mkBlock(dels, nAdds, true)
@@ -591,7 +619,7 @@ func concRound(g *Gen, cfg cconfig, maxAdds int) {
 			apply: func(m *u.MapPollard) string { return errStr(blk.modify(m)) }})
 		w2 := newCWorld(g, cfg)
 		w2.grow(2+g.Intn(3), maxAdds)
-		c2 := w2.cachedLive()
+		c2 := w2.edge(w2.cachedLive())
 		dels2 := pick(g, c2, 1+g.Intn(3))
 		blk2 := w2.mkBlock(dels2, g.Intn(maxAdds), true)
 		qs2 := w2.queriesFor(minus(c2, dels2), dels2, addHashes(blk2.adds))
@@ -602,7 +630,7 @@ func concRound(g *Gen, cfg cconfig, maxAdds int) {
 	{
 		w := newCWorld(g, cfg)
 		w.grow(2+g.Intn(3), maxAdds)
-		c := w.cachedLive()
+		c := w.edge(w.cachedLive())
 		dels := pick(g, c, 1+g.Intn(2))
 		blk := w.mkBlock(dels, 1+g.Intn(maxAdds), true)
 		// queries are prepared on the pre-block state: proofs of survivors / of the leaves
@@ -626,7 +654,7 @@ func concRound(g *Gen, cfg cconfig, maxAdds int) {
 			die("conc: Write failed: %v", err)
 		}
 		data := buf.Bytes()
-		c := w.cachedLive()
+		c := w.edge(w.cachedLive())
 		qs := w.queriesFor(nil, nil, c)
 		fa, fb := newMap(cfg.full, cfg.rows), newMap(cfg.full, cfg.rows)
 		runScenario(cfg, fa, fb, cscenario{site: "read.afterheader", hit: 1, op: "Read", queries: qs,
@@ -671,7 +699,7 @@ func concRound(g *Gen, cfg cconfig, maxAdds int) {
 	{
 		w := newCWorld(g, cfg)
 		w.grow(2+g.Intn(3), maxAdds)
-		c := w.cachedLive()
+		c := w.edge(w.cachedLive())
 		if len(c) >= 2 {
 			k := 1 + g.Intn(min(3, len(c)-1))
 			vict := pick(g, c, k)
@@ -918,6 +946,8 @@ func famConc(g *Gen, tier string, shard, nshards int) {
 		emit("conctable") // the driver evaluates the lock-discipline check on the regenerated table
 	}
 	cfgs := []cconfig{{true, 63}, {true, 0}, {false, 63}, {false, 0}, {true, 5}, {false, 50}}
+	// one world in five of the interleaving scenarios is a forest of many trees
+	concManyEvery, concWorldNo = 5, shard
 	for r := 0; r < rounds; r++ {
 		for i, cfg := range cfgs {
 			if (r*len(cfgs)+i)%nshards != shard {
@@ -926,6 +956,7 @@ func famConc(g *Gen, tier string, shard, nshards int) {
 			concRound(g, cfg, maxAdds)
 		}
 	}
+	concManyEvery = 0
 	for r := 0; r < stressRounds; r++ {
 		for i, cfg := range cfgs {
 			if (r*len(cfgs)+i)%nshards != shard {
